@@ -76,7 +76,8 @@ def _full_ok(spec, ref, fo, out):
                 if fo[o] != v:
                     return False
             elif len(outs) > 1 and tuple(outs) in fo:
-                if fo[tuple(outs)][j] != v:
+                whole = fo[tuple(outs)]  # the function's raw return value: a tuple, or a dict with a custom picker
+                if (whole.get(o) if f.get("picker") and isinstance(whole, dict) else whole[j]) != v:
                     return False
             else:
                 return False
